@@ -1,9 +1,237 @@
 import Pandora.Drv.Util
+import Pandora.Model.C13Ammo
+import Pandora.Model.C13Funcs
+import Pandora.Spec.C13
 
+/-
+Line-protocol driver of C13: for one harness input line compute the model's prediction of the
+observation (`-` when a third-party parser or chance decides) and the Spec verdict on what the real code did.
+The model is always the REPAIRED one (`fixed := true`).
+-/
 namespace Pandora.Drv.C13
-open Pandora.Drv
+open Pandora.Drv Pandora.Model.C13 Pandora.Spec.C13
 
-/-- stub: replaced when the property's model driver is written -/
-def handle : Handler := fun _ _ => ("-", "skip:not-built")
+def hexB (b : Bytes) : String := toHex b
+def bytesOfHex (s : String) : Option Bytes := parseHex s
+def str (s : String) : Bytes := ofString s
+
+/-! ### url.Parse oracle: three-valued -/
+
+def isAlnum (b : UInt8) : Bool := (48 ≤ b && b ≤ 57) || (65 ≤ b && b ≤ 90) || (97 ≤ b && b ≤ 122)
+
+/-- URIs for which `url.Parse` certainly succeeds and `URL.String()` gives the same text back -/
+def safeUri (u : Bytes) : Bool :=
+  match u with
+  | 47 :: rest =>
+    (match rest with | 47 :: _ => false | _ => true) &&
+    (match cut rest 63 with
+     | none => rest.all fun b => isAlnum b || b == 47 || b == 95 || b == 46 || b == 126 || b == 45
+     | some (p, q) =>
+       (p.all fun b => isAlnum b || b == 47 || b == 95 || b == 46 || b == 126 || b == 45) &&
+       (q.all fun b => isAlnum b || b == 61 || b == 38 || b == 95 || b == 46 || b == 45))
+  | _ => false
+
+/-- URIs `url.Parse` certainly rejects: an ASCII control character before the fragment -/
+def badUri (u : Bytes) : Bool :=
+  let pre := match cut u 35 with
+    | some (a, _) => a
+    | none => u
+  pre.any fun b => b < 32 || b == 127
+
+def endStr : End → String
+  | .ok => "ok"
+  | .err c => if c == "emptykey" then "err:hdr" else s!"err:{c}"
+  | .panic => "panic"
+  | .fatal => "fatal-oom"
+  | .fuel => "fuel"
+
+def renderRun (withUri : Bool) (r : Run) : String :=
+  let es := r.entries.map fun e =>
+    if withUri then s!"{hexB e.tag}/{hexB e.uri}/{hexB e.body}" else hexB e.tag
+  s!"n={r.entries.length} e={String.intercalate "," es} end={endStr r.end_}"
+
+def ammoModel (fmt : String) (pre : Bool) (data : Bytes) : Option String :=
+  let run (urlOk : Bytes → Bool) : Option Run :=
+    match fmt with
+    | "uripost" => some (uripostRun true urlOk data)
+    | "raw" => some (rawRun true data)
+    | "uri" => some (uriRun urlOk data)
+    | _ => none
+  match run safeUri, run (fun u => !badUri u) with
+  | some a, some b =>
+    if a != b then none
+    else if !(a.entries.all fun e => fmt == "raw" || safeUri e.uri) then none
+    -- an unterminated last line is dropped by the size-prefixed decoders (C07's subject): not predicted here
+    else if fmt != "uri" && a.end_ == .ok && !(trimSpace a.rest).isEmpty then none
+    else if fmt == "uri" && data.length ≥ 65536 then none
+    else
+      let a := if pre && a.end_ != .ok then { a with entries := [] } else a
+      some (renderRun (fmt != "raw") a)
+  | _, _ => none
+
+/-! ### mp.GetMapValue data (the same family as harness/cmd/c13/helpers.go mpData) -/
+
+def natStr (n : Nat) : Bytes := str (toString n)
+
+def mpData (n : Nat) : List (Bytes × Val) :=
+  let idx := List.range n
+  let users := idx.map fun i => Val.map [(str "id", .int (Int.ofNat i)), (str "name", .str (str "u" ++ natStr i))]
+  let smap := idx.map fun i => Val.map [(str "k", .str (str "v" ++ natStr i))]
+  let strs := idx.map fun i => Val.str (str "s" ++ natStr i)
+  let ints := idx.map fun (i : Nat) => Val.int (Int.ofNat (i * 10))
+  let anys := idx.map fun i => if i % 2 == 0 then Val.str (str "a" ++ natStr i) else Val.map [(str "x", .int (Int.ofNat i))]
+  let bools := idx.map fun _ => Val.int 0
+  [(str "source", .map [(str "users", .arr true users), (str "smap", .arr true smap), (str "strs", .arr true strs),
+      (str "ints", .arr true ints), (str "anys", .arr true anys), (str "bools", .arr false bools), (str "scalar", .str (str "sc"))]),
+   (str "top", .str (str "t"))]
+
+def renderVal : Val → String
+  | .str s => s!"s:{hexB s}"
+  | .int i => s!"i:{i}"
+  | .map kvs => "m:" ++ String.intercalate "." ((kvs.map fun kv => hexB kv.1).toArray.qsort (· < ·)).toList
+  | .arr _ es => s!"l:{es.length}"
+
+def mpModel (n calls : Nat) (path : Bytes) : Option String :=
+  if n ≥ 2 && (indexOfSub (asciiLower path) kwRand).isSome then none else
+  let data := mpData n
+  let rec go : Nat → IterState → List String → List String
+    | 0, _, acc => acc.reverse
+    | k + 1, st, acc =>
+      match getMapValue true data path st 0 with
+      | (.ok v, st') => go k st' (renderVal v :: acc)
+      | (.err _, st') => go k st' ("err" :: acc)
+      | (_, _) => ("panic" :: acc).reverse
+  some (String.intercalate ";" (go calls [] []))
+
+/-! ### placeholders: environment and property file of the harness -/
+
+def propFilePath : Bytes := str "/var/tmp/verif-c13/p.properties"
+def propLines : List Bytes := [str "a=1", str "key=va=lue", str "empty=", str "noeq", str "=anon", str "sp ace=x y"]
+
+def envKnown (name : Bytes) : Option (Option Bytes) :=
+  if name = str "C13_A" then some (some (str "x"))
+  else if name = str "C13_NUM" then some (some (str "42"))
+  else if name = str "C13_EMPTY" then some (some [])
+  else if name = str "C13_TAG" then some (some (str "${C13_A}"))
+  else if name = str "C13_UNSET" then some none
+  else none
+
+def fileKnown (path : Bytes) : Option (Option (List Bytes)) :=
+  if path = propFilePath then some (some propLines)
+  else if path = [] || path = str "x" || path = str "/nonexistent/file" then some none
+  else none
+
+def tagModel (s : Bytes) : Option String :=
+  let run (unkEnv : Option Bytes) (unkFile : Option (List Bytes)) : Res Bytes :=
+    resolveTags true (fun n => (envKnown n).getD unkEnv) (fun p => (fileKnown p).getD unkFile) s
+  let a := run none none
+  let b := run (some (str "?")) (some [str "?=?"])
+  if a != b then none
+  else match a with
+    | .ok v => some s!"ok val={hexB v}"
+    | .err _ => some "err"
+    | _ => some "panic"
+
+/-! ### the handler -/
+
+def resStr {α} (r : Res α) (okf : α → String) : String :=
+  match r with
+  | .ok a => okf a
+  | .err c => if c == "emptykey" || c == "hdr" then s!"err:{c}" else "err"
+  | .panic _ => "panic"
+  | .fatal _ => "fatal"
+
+def scnReqs (s : String) : Option (List Bytes) :=
+  if s == "-" then some [] else (s.splitOn ";").mapM bytesOfHex
+
+def cliShape (s : String) : Option PoolsVal :=
+  if s == "absent" || s == "null" then some .absent
+  else if s == "scalar" || s == "str" || s == "map" then some .notList
+  else if s.startsWith "list:" then
+    ((s.drop 5).toString.toList.mapM fun c =>
+      if c == 'm' then some (PoolItem.mapping false)
+      else if c == 'd' then some (PoolItem.mapping true)
+      else if c == 's' || c == 'l' || c == 'n' then some PoolItem.other
+      else none).map PoolsVal.list
+  else none
+
+def intArg (s : String) : Option Int := if s.isEmpty then some 0 else s.toInt?
+
+/-- (model observation or none, kind) -/
+def model (kv : List (String × String)) : Option (Option String × String) := do
+  let k := getS kv "k"
+  match k with
+  | "ammo" =>
+    let data ← bytesOfHex (getS kv "hex")
+    let fmt := getS kv "fmt"
+    pure (ammoModel fmt (getS kv "pre" == "1") data, s!"{fmt} provider")
+  | "hdr" =>
+    let h ← bytesOfHex (getS kv "hex")
+    pure (some (resStr (decodeHeader h) fun (k, v) => s!"ok key={hexB k} val={hexB v}"), "util.DecodeHeader")
+  | "psf" =>
+    let h ← bytesOfHex (getS kv "hex")
+    pure (some (resStr (parseStringFunc h) fun (n, args) =>
+      match args with
+      | none => s!"ok name={hexB n} args=nil"
+      | some as => s!"ok name={hexB n} args={String.intercalate ";" (as.map hexB)}"), "str.ParseStringFunc")
+  | "shoot" =>
+    let h ← bytesOfHex (getS kv "hex")
+    pure (some (resStr (parseShootName h) fun s => s!"ok name={hexB s.name} cnt={s.cnt} sleep={s.sleep}"), "ParseShootName")
+  | "mp" =>
+    let p ← bytesOfHex (getS kv "path")
+    let n ← getN? kv "n"
+    let calls := (getN? kv "calls").getD 1
+    pure (mpModel n (if calls == 0 then 1 else calls) p, "mp.GetMapValue")
+  | "tag" =>
+    let h ← bytesOfHex (getS kv "hex")
+    pure (tagModel h, "config placeholder")
+  | "scn" =>
+    let reqs ← scnReqs (getS kv "reqs")
+    let defs := (splitList (getS kv "defs")).map str
+    let m := match expand true (fun n => defs.contains n) reqs with
+      | .ok steps => "steps=" ++ String.intercalate "," (steps.map fun (n, s) => s!"{hexB n}:{s}") ++ " end=ok"
+      | .err _ => "end=ctor-err"
+      | .panic _ => "end=panic"
+      | .fatal _ => "end=fatal"
+    pure (some m, s!"{getS kv "kind"}/scenario provider")
+  | "scnraw" => pure (none, s!"{getS kv "kind"}/scenario provider")
+  | "ri" =>
+    let f ← intArg (getS kv "f")
+    let t ← intArg (getS kv "t")
+    match randInt true f t 0 with
+    | .err _ => pure (some "err", "randInt")
+    | _ => pure (none, "randInt")
+  | "cli" =>
+    let p ← cliShape (getS kv "pools")
+    match massagePools true p with
+    | .ok v => pure (if poolsAcceptable v then none else some "end=err", "cli.readConfig")
+    | _ => pure (some "end=panic", "cli.readConfig")
+  | _ => none
+
+/-- randInt: the value the real code returned must lie in the interval the model allows -/
+def randIntVerdict (kv : List (String × String)) (impl : String) : Option String := do
+  if getS kv "k" != "ri" then none
+  if !impl.startsWith "ok v=" then none
+  let v ← (impl.drop 5).toString.toInt?
+  let f ← intArg (getS kv "f")
+  let t ← intArg (getS kv "t")
+  let (lo, hi) := if t < f then (t, f) else (f, t)
+  let hi := if lo = 0 ∧ hi = 0 then 10 else hi
+  let hi := if hi = lo then wrap64 (lo + 10) else hi
+  let d := wrap64 (hi - lo)
+  let off := wrap64 (v - lo)
+  if 0 ≤ off ∧ off < d then some "ok" else some s!"fail:range:randInt returned {v} outside [{lo},{hi})"
+
+def handle : Handler := fun input impl =>
+  let kv := parseKV input
+  match model kv with
+  | none => ("-", "fail:driver:unparsable input")
+  | some (m, kind) =>
+    let verdict := match randIntVerdict kv impl with
+      | some v => v
+      | none => judge kind m impl
+    -- a case the harness refused to run (memory guard) has no observation to compare with
+    let m := if containsSub impl "oom-guard" then none else m
+    (m.getD "-", verdict)
 
 end Pandora.Drv.C13
